@@ -122,9 +122,14 @@ CHECKS = [
         "Tie to /repo: real cascade_images on 256x256 tiles (npy x 8 modes, png RGB/RGBA, fits float/int; start depth 1-3; "
         "sparse leaves; serial and real parallel=2; with an accept-populated TOAST filter), every pixel of every produced "
         "tile compared with the numpy expansion of the model's placement description, which is itself checked against the "
-        "full Gallina cascade at k=1..4. Partial: jpg pixels (existence only); the callback order is C01/C13's theorem.",
-        "Float rounding outside the model (test data scaled so every mean is exact). Parallel walks via real parallel=2 "
-        "runs (schedule-level theorems are C01's).",
+        "full Gallina cascade at k=1..4. Serial = parallel is composed inside Coq (Proofs/GlueCascade.v): for every schedule "
+        "of the walk LTS reaching DReturned, the callbacks ordered by their End events are a valid children-first order and "
+        "give the same store as the serial order (cascade_parallel_eq_serial, cascade_images_parallel_eq_serial), concurrent "
+        "callbacks touch disjoint tiles and read only settled children (walk_par_no_interference, walk_par_reads_settled, "
+        "replay_eq_cascade). Partial: jpg pixels (existence only).",
+        "Float rounding outside the model (test data scaled so every mean is exact). Remaining modelling assumption of the "
+        "composition: a callback acts as walk_callback on the files of its children and itself between its Start and End "
+        "events (WalkPar.v carries no tile store).",
         "machine-checked proof (Coq) + model/implementation correspondence by vm_compute and per-pixel comparison", "DESIGN.md section 5, C02"),
     chk("C06",
         "Coq proof over a Gallina model of ToastSampler.visit_callback, PyramidIO write/update and the leaf visit, with the "
@@ -134,7 +139,11 @@ CHECKS = [
         "behaviours are kept as refutation witnesses sample_depth0_refuted, format_override_parity_refuted). Tie to /repo: "
         "real sample_layer / sample_layer_filtered / Builder.toast_base with samplers hashing the float bits of (lon, lat), "
         "depth 0-3, both coordinate systems, png/npy/fits, clobber and update, parallel=1 and real parallel=2, every pixel "
-        "compared exactly; level-0 grid checked against depth-8 tile centres.",
+        "compared exactly; level-0 grid checked against depth-8 tile centres; real parallel runs with 2, 3 and 5 workers. "
+        "Worker-count independence is composed inside Coq with C03 and C13 (Proofs/GlueSample.v: sample_parallel_eq_serial, "
+        "sample_layer_parallel: every schedule of the leaf-visit LTS that returns hands out exactly the leaves, and every "
+        "order of the handed-out callbacks gives the serial store). A history-independence probe compares the geometry API "
+        "under interleaved use of both coordinate systems with fresh single-system processes.",
         "Trusted: toast_tile_get_coords/create_single_tile as the expected coordinates (their geometry is C04/C05), the "
         "image decoders, C15 mask semantics, C03/C13 leaf delivery.",
         "machine-checked proof (Coq) + model/implementation correspondence by vm_compute and per-pixel comparison", "DESIGN.md section 5, C06"),
@@ -167,9 +176,12 @@ CHECKS = [
         "hypothesis, per-tuple placement for both input and tile parities, NaN-aware locked updates, clean_lockfiles): "
         "tiles, tile files and global WCS equal those of study-tiling the pasted mosaic, for every input order, storage "
         "parity, worker count and interleaving of atomic updates; no lock file survives. Tie to /repo: the real processor "
-        "(serial and fork-parallel 2/3) on generated FITS collections against the real study tiling of the pasted mosaic.",
-        "Per-tile atomicity of update_image is C10's theorem and is assumed here. Float inputs only. set_position_from_wcs "
-        "trusted to be a function. Parallel runs sample the OS scheduler.",
+        "(serial and fork-parallel 2/3) on generated FITS collections (overlaps, NaN borders, asymmetric NaN patches) against "
+        "the real study tiling of the pasted mosaic. Per-tile atomicity is no longer assumed: Proofs/GlueMultiTan.v instantiates "
+        "C10's lock LTS per tile and proves multitan_parallel_eq_serial / multitan_parallel_atomic for every schedule of the "
+        "product of per-tile lock protocols.",
+        "Float inputs only. set_position_from_wcs trusted to be a function. Added by the product construction: updates of "
+        "different tiles do not interact (separate tile and lock files). Parallel runs sample the OS scheduler.",
         "machine-checked proof (Coq) + model/implementation correspondence by vm_compute and per-pixel comparison", "DESIGN.md section 5, C09"),
     chk("C14",
         "Coq proof on top of the C02 model: for scalar FITS modes, every depth, sparse population and contents with NaN, the "
